@@ -75,6 +75,18 @@ def build(repo, spec_dir, canary=False):
     emit_types_and_spec(b)
     b.emit('impl RegExpBuilder {')
     emit_setters(b)
-    b.emit('}\n} // verus!\nfn main() {}')
+    b.emit('}')
+    # the documented panic of RegExpBuilder::from: reachable exactly for an empty list (first statement of the function, R7 + R6)
+    f, _, _ = X.fn(b.src('builder.rs'), 'from', within=r'^impl RegExpBuilder \{')
+    from vx import rustlex as L
+    bo = L.body_open(f, 0)
+    st = L.split_stmts(f[bo + 1:L.match_close(f, bo)])
+    first = f[bo + 1:][st[0][0]:st[0][1]]
+    b.slice_fn('from_guard', 'pub fn from_guard<T>(test_cases: &[T])', '    ' + first, 'builder.rs::RegExpBuilder::from first statement (the emptiness check)', props=['C07'],
+               requires=['test_cases@.len() > 0'], clauses=[])
+    b.slice_fn('from_guard_panics_on_empty', 'pub fn from_guard_panics_on_empty<T>(test_cases: &[T]) -> (reached_end: bool)', '    ' + first + '\n    true', 'builder.rs::RegExpBuilder::from first statement: an empty list does not get past it', props=['C07'],
+               clauses=[Clause('from.empty_list_panics', 'test_cases@.len() > 0', ['C07'])], extra_rules=[('R6b', r'vx_unreachable_panic\(\)', 'vx_documented_panic()', 'the documented panic: a diverging call')])
+    b.emit('#[verifier::external_body] pub fn vx_documented_panic() -> ! { unimplemented!() }')
+    b.emit('} // verus!\nfn main() {}')
     b.trusted += ['panic! is modelled as a call with `requires false` (R6): proves the documented panic unreachable when the argument is positive']
     return b
